@@ -28,7 +28,9 @@ TY = {"keyword": 0, "ident": 1, "string": 2, "int": 3, "float": 4, "operator": 5
 
 TRUSTED = [
     "Coq 8.16.1 kernel + vm_compute",
-    "translator gen/jsonx.go (keyword set, token codes, operator runes, exponent signs, error cap, SkipErrStmt loop condition)",
+    "translator gen/jsonx.go (keyword set, token codes, operator runes, exponent signs, error cap, SkipErrStmt loop condition, "
+    "every write to the error state and the delegation skeleton of the helpers that reach it) and gen/jsonx_own.go (origin of "
+    "every []byte result, package-level buffers and pools)",
     "harness/cmd/jsonx + checks/jsonx_common.py comparison; jsonx/verif_export.go shim",
     "modelled, compared on every run, not verified: bufio.ReadRune UTF-8 decoding, strconv.Unquote, strconv.Quote, "
     "json.Marshal of strings, big.Int SetString/String, encoding/json as the reference JSON reader",
